@@ -6,7 +6,7 @@ from . import common as C
 from .extract import extractor, ExtractError, c_dump
 
 MODS = ["default", "esc", "escape", "escnde", "escpsnde", "noesc", "noescape",
-        "tolower", "toupper", "encb64u", "decb64u"]
+        "tolower", "toupper", "encb64u", "decb64u", "bare_tolower", "bare_toupper"]
 
 _PROG = r'''
 #include "first.h"
@@ -33,9 +33,12 @@ int main(void) {
     static const char *mods[] = {"", "esc:", "escape:", "escnde:", "escpsnde:", "noesc:", "noescape:",
       "tolower:", "toupper:", "encb64u:", "decb64u:"};
     for (unsigned i = 0; i < sizeof(mods)/sizeof(*mods); ++i) {
-        char t[64]; snprintf(t, sizeof(t), "${%s1}", mods[i]);
+        /* case modifiers are probed together with noesc: so that their own flag is isolated */
+        char t[64]; snprintf(t, sizeof(t), "${%s%s1}", mods[i], (mods[i][0] == 't' && mods[i][1] == 'o') ? "noesc:" : "");
         printf("%d ", probe(t));
     }
+    /* a case modifier alone: which flags reach burl_append (the default encoding must still apply) */
+    printf("%d %d ", probe("${tolower:1}"), probe("${toupper:1}"));
     printf("\n");
     if (sizeof(base64_url_table) != 66) return 3;
     for (int i = 0; i < 65; ++i) printf("%d ", (unsigned char)base64_url_table[i]);
@@ -61,17 +64,24 @@ def kv_modifiers():
     if len(lines) != 3:
         raise ExtractError("KvModifiers: unexpected dumper output")
     flags = [int(x) for x in lines[0].split()]
-    if len(flags) != len(MODS) or any(f < 0 for f in flags):
-        raise ExtractError("KvModifiers: a documented ${modifier:N} form is no longer accepted by "
-                           "pcre_keyvalue_buffer_subst_ext: %r" % (list(zip(MODS, flags)),))
+    if len(flags) != len(MODS):
+        raise ExtractError("KvModifiers: unexpected dumper output")
+    # a documented form that the function no longer accepts (probe -1) is recorded as the impossible flag
+    # value 65535: only C20's c20_modifier_map fails then, not the extraction (which all checks share)
+    flags = [65535 if f < 0 else f for f in flags]
     tbl = [int(x) for x in lines[1].split()]
     rev = [int(x) for x in lines[2].split()]
     if len(tbl) != 65 or len(rev) != 128:
         raise ExtractError("KvModifiers: base64url table shape changed")
     s = "namespace LtVerif.Extracted\n\n"
     s += ("/-- keyvalue.c pcre_keyvalue_buffer_subst_ext(): burl flags handed to burl_append() for the\n"
-          "    template `${<modifier>:1}` (observed by running the function of the current tree) -/\n")
+          "    template `${<modifier>:1}` (observed by running the function of the current tree; tolower/toupper\n"
+          "    are probed as `${tolower:noesc:1}` with the noesc flag removed; `bare_*` = the flags of\n"
+          "    `${tolower:1}` / `${toupper:1}`) -/\n")
+    noesc = flags[MODS.index("noesc")]
     for n, v in zip(MODS, flags):
+        if n in ("tolower", "toupper") and v != 65535 and noesc != 65535:
+            v &= ~noesc
         s += "def kvMod_%s : Nat := %d\n" % (n, v)
     s += "\n/-- base64.c: base64_url_table[] (64 digits + pad char) -/\n"
     s += "def b64uTable : List UInt8 := " + _rows(tbl) + "\n\n"
